@@ -241,6 +241,15 @@ def check_static(res, algname, leaves, wrap, case):
         return None
     if any(l.startswith('mv') or l.startswith('call') for l in leaves):
         res.nontrivial += 1
+    # which subjects the front end may drag: the multivectors at the first level of nesting (the points, for 3D/4D PGA)
+    from kingdon import MultiVector
+    d = alg.d
+    pga = alg.r == 1 and d in (3, 4)
+    want_idx = [i for i, s_ in enumerate(pre) if isinstance(s_, MultiVector) and (not pga or (len(s_) and s_.grades == (d - 1,)))]
+    if list(w.draggable_points_idxs) != want_idx:
+        res.violate(violation(f'draggable-idxs:{wrap}', f'{desc}: draggable_points_idxs = {list(w.draggable_points_idxs)} but the first-level multivectors are at {want_idx}', case,
+                              want_idx, list(w.draggable_points_idxs)))
+        return None
     return w, alg, subjects, mvs, pre, key2idx
 
 
@@ -374,8 +383,8 @@ def run_shard(shard):
         for wrap in wraps:
             case = {'alg': algname, 'leaves': leaves, 'wrap': wrap, 'depth': shard['depth']}
             depth = shard['depth'] + (1 if len(leaves) <= 1 and shard['depth'] < 3 else 0)
-            if wrap == 'plain':
-                drag_bfs(res, algname, leaves, wrap, depth, case)
+            if wrap in ('plain', 'rootcall'):
+                drag_bfs(res, algname, leaves, wrap, depth if wrap == 'plain' else 1, case)
             else:
                 check_static(res, algname, leaves, wrap, case)
     # camera option
